@@ -184,6 +184,9 @@ def build(ctx, tier="quick", constraints=True, set_null=True, normalize_names=Fa
             x = s.edge(x, NM["a"], Tag(kind, False, role_prefix + "1"))
             if kind in ("decl:PK", "decl:CPK", "decl:UQ") and not normalize_names:
                 s.e[x0].append((sqlish, Tag(kind, False, role_prefix + "1"), x))
+            if kind in ("decl:UQ", "decl:CUQ") and not normalize_names:
+                # in a UNIQUE list there is no ordering: a column may be called asc / desc
+                s.e[x0].append((lm.custom("ordword", ["desc", "asc", "Desc", "ASC", "DESC", "Asc"], "PLAIN"), Tag(kind, False, role_prefix + "1"), x))
             if k == 2:
                 x = s.edge(x, P[","], Tag(kind, False))
                 x = s.edge(x, NM["b"], Tag(kind, False, role_prefix + "2"))
